@@ -180,6 +180,7 @@ func (st *Stack) reloadOnce(names []string, reuseOpen bool) error {
 
 func (st *Stack) reload(reuseOpen bool) error {
 	var delay time.Duration
+	var lastErr error
 	deadline := time.Now().Add(5 * time.Second / 2)
 	for time.Now().Before(deadline) {
 		names, err := st.readNames()
@@ -187,6 +188,7 @@ func (st *Stack) reload(reuseOpen bool) error {
 			return err
 		}
 		err = st.reloadOnce(names, reuseOpen)
+		lastErr = err
 		if err == nil {
 			break
 		}
@@ -204,6 +206,11 @@ func (st *Stack) reload(reuseOpen bool) error {
 
 		// compaction changed name
 		delay = time.Millisecond*time.Duration(1+rand.Intn(1)) + 2*delay
+	}
+	if lastErr != nil {
+		// Gave up: the stack still is what it was before, which
+		// is not what tables.list says.
+		return lastErr
 	}
 
 	var tabs []Table
